@@ -43,11 +43,32 @@ def _rate(draw, cs=None):
 
 
 @st.composite
+def gen_money_tie(draw):
+    """amount x rate lands within 1e-7..1e-9 of a tie of the target grid (exposes intermediate rounding)."""
+    c1, c2 = draw(st.permutations(CUR))[:2]
+    op = draw(st.sampled_from(["m*r", "r*m", "conv"]))
+    qs, qt = iso.fraction_of(c1), iso.fraction_of(c2)
+    a = Fraction(10) ** draw(st.integers(0, 3))
+    j = draw(st.integers(1, 10 ** 5))
+    eps = Fraction(draw(st.sampled_from([-1, 1])), 10 ** draw(st.integers(7, 9)))
+    p = (j + Fraction(1, 2)) * qt + eps
+    r = p / a
+    from ..model import dec_places
+    k = max(0, dec_places(r) - 6)
+    term = r * 10 ** k
+    while term >= 10 ** 7 and k > 0:
+        k -= 1
+        term = r * 10 ** k
+    return {"k": "money", "cur": c1, "amt": ["dec", fs(a)], "op": op, "dflt": draw(gen.modes),
+            "rate": {"cs": [c1, c2], "mult": ["int", str(10 ** k)], "term": ["dec", fs(term)]}}
+
+
+@st.composite
 def gen_money(draw):
     r = draw(_rate())
     match = draw(st.integers(0, 4)) != 0
-    op = draw(st.sampled_from(["m*r", "r*m", "m/r"]))
-    need = r["cs"][1] if op == "m/r" else r["cs"][0]
+    op = draw(st.sampled_from(["m*r", "r*m", "m/r", "conv", "conv_inv"]))
+    need = r["cs"][1] if op in ("m/r", "conv_inv") else r["cs"][0]
     cur = need if match else draw(st.sampled_from([c for c in CUR if c != need]))
     q = iso.fraction_of(cur)
     amt = gen.pick(draw, (5, st.integers(-10 ** 7, 10 ** 7).map(lambda n: n * q)), (2, gen.fractions()))
@@ -103,6 +124,7 @@ def gen_nomoney(draw):
 def parts(tier):
     big = tier == "thorough"
     return [Part("money", "hyp", strategy=gen_money(), n=500000 if big else 30000),
+            Part("money_tie", "hyp", strategy=gen_money_tie(), n=100000 if big else 6000),
             Part("compound", "hyp", strategy=gen_compound(), n=150000 if big else 8000, chunk=2000),
             Part("nomoney", "hyp", strategy=gen_nomoney(), n=20000 if big else 1500)]
 
@@ -118,6 +140,59 @@ def _apply(op, q, r):
     if op in ("r*m", "r*p"):
         return r * q
     return q / r
+
+
+def _via_converter(ctx, case, m, a, cur, c1, c2, mode):
+    """money.convert(currency) through a registered MoneyConverter: amount x reported rate, rounded once."""
+    from quantity import UnitConversionError
+    from quantity.money import MoneyConverter
+    import datetime
+    if list(Money.registered_converters()):
+        raise AssertionError("harness: converter stack not empty")
+    conv = MoneyConverter(c1, get_dflt_effective_date=lambda: datetime.date(2020, 1, 1))
+    conv.update(None, [(c2, _num(case["rate"]["term"]), _num(case["rate"]["mult"]))])
+    target = c2 if case["op"] == "conv" else c1
+    need = c1 if case["op"] == "conv" else c2
+    what = f"{m!r}.convert({target}) through a converter with {case['rate']} [{mode}]"
+    try:
+        with conv:
+            try:
+                rate = conv.get_rate(cur, target)
+            except ValueError:
+                # the inverse of the stored rate is below the documented 1e-6 limit (or cur is target)
+                ctx.label("rate_not_representable")
+                return
+            try:
+                res = m.convert(target)
+            except UnitConversionError:
+                if cur is need and rate is not None:
+                    ctx.viol("money/conv/rejected", f"{what} raised UnitConversionError although the rate {rate!r} exists")
+                else:
+                    ctx.nontrivial()
+                    ctx.label("mismatch_rejected")
+                return
+            except ValueError as exc:
+                if cur is need:
+                    ctx.viol(f"money/conv/raises/{type(exc).__name__}", f"{what} raised {type(exc).__name__}: {exc}")
+                return
+    finally:
+        if list(Money.registered_converters()):
+            raise AssertionError("harness: converter left registered")
+    if rate is None:
+        if cur is not target:
+            ctx.viol("money/conv/phantom", f"{what} = {res!r} although no rate is available")
+        return
+    ctx.label("matching")
+    tq = iso.fraction_of(target.symbol)
+    ex = a * F(rate.rate)
+    if (ex / tq).denominator != 1:
+        ctx.label("offgrid")
+        ctx.nontrivial()
+    want = round_to(ex, tq, mode)
+    if type(res) is not Money or res.unit is not target:
+        ctx.viol("money/conv/type_unit", f"{what} = {res!r}")
+    elif F(res.amount) != want:
+        ctx.viol("money/conv/value", f"{what} = {res!r}; amount x reported rate {fs(ex)} rounded once is {fs(want)}")
 
 
 def run_case(case, ctx):
@@ -136,6 +211,8 @@ def run_case(case, ctx):
             a = F(m.amount)
             need, target, factor = (c2, c1, 1 / rv) if op == "m/r" else (c1, c2, rv)
             what = f"{op}: {m!r}, {r!r} [{mode}]"
+            if op in ("conv", "conv_inv"):
+                return _via_converter(ctx, case, m, a, cur, c1, c2, mode)
             try:
                 res = _apply(op, m, r)
             except ValueError as exc:
